@@ -569,6 +569,16 @@ def wrap_calls(text, pat, before, after):
     return ''.join(out), len(spans)
 
 
+def _sub_ident(text, m, old, new):
+    out, last = [], 0
+    for mo in re.finditer(r'(?<![\w.])%s\b' % re.escape(old), m):
+        out.append(text[last:mo.start()])
+        out.append(new)
+        last = mo.end()
+    out.append(text[last:])
+    return out
+
+
 def r3_inline_helpers(body, src, known, self_name, depth=2, only=None):
     """R3h: a call `self.h(args)` / `Self::h(args)` of a helper that the unit has no text for (neither an extract nor a
     stub) but that is defined exactly once in the same source file, without `return` / `?` in its body, is replaced
@@ -632,8 +642,20 @@ def r3_inline_helpers(body, src, known, self_name, depth=2, only=None):
             args = [x.strip() for x in split_top_commas((body[ao + 1:ac], m[ao + 1:ac])) if x.strip()]
             if len(args) != len(pats):
                 continue
-            if pats:
-                rep = '{ let (%s,) = (%s,); %s }' % (', '.join(pats), ', '.join(args), hbody)
+            # an argument that is a plain variable (or a shared borrow of one) is passed by name: the parameter is
+            # renamed to it in the helper's text (so that a handle that rule R5 turned into `&mut` stays one)
+            let_p, let_a = [], []
+            for pt, ag in zip(pats, args):
+                ma = re.match(r'^&?\s*([A-Za-z_]\w*)$', ag)
+                if ma and re.match(r'^[A-Za-z_]\w*$', pt) and ma.group(1) != 'self':
+                    if pt != ma.group(1):
+                        hm2 = mask(hbody)
+                        hbody = ''.join(_sub_ident(hbody, hm2, pt, ma.group(1)))
+                else:
+                    let_p.append(pt)
+                    let_a.append(ag)
+            if let_p:
+                rep = '{ let (%s,) = (%s,); %s }' % (', '.join(let_p), ', '.join(let_a), hbody)
             else:
                 rep = '{ %s }' % hbody
             out.append(body[last:mo.start()])
@@ -694,3 +716,31 @@ def r7_map_or_literal(text):
         text = text[:a] + rep + text[cl + 1:]
         fired += 1
     return text, fired
+
+
+_PATH = r'(?:[A-Za-z_]\w*)(?:\s*\.\s*[A-Za-z_]\w*(?:\(\))?)*'
+
+
+def r4_stamp_compare(text, names):
+    """R4s: an ordering comparison between two StabilisationNum values (`names` lists the fields / locals of that type)
+    compares their numbers: `A < B` -> `A.0 < B.0` (the derived PartialOrd of a one-field tuple struct; the verifier
+    has no spec for derived orderings).  Works whichever operand is written first and whatever the operator."""
+    m = mask(text)
+    out, last, n = [], 0, 0
+    for mo in re.finditer(r'(%s)\s+(<=|>=|<|>)\s+(%s)' % (_PATH, _PATH), m):
+        if mo.start() < last:
+            continue
+        def last_seg(p):
+            segs = [x for x in re.findall(r'[A-Za-z_]\w*', p) if x not in ('get',)]
+            return segs[-1] if segs else ''
+        a, b = mo.group(1), mo.group(3)
+        if last_seg(a) not in names and last_seg(b) not in names:
+            continue
+        if a.rstrip().endswith('.0') or b.rstrip().endswith('.0'):
+            continue
+        out.append(text[last:mo.start()])
+        out.append('%s.0 %s %s.0' % (text[mo.start(1):mo.end(1)], mo.group(2), text[mo.start(3):mo.end(3)]))
+        last = mo.end()
+        n += 1
+    out.append(text[last:])
+    return ''.join(out), n
